@@ -4,9 +4,9 @@ namespace Lentil.Heap
 
 theorem mem_writeCells (tbl : List Gen.EffRow) (s : State) (op : Op) (c : Cell) :
     c ∈ writeCells tbl s op ↔ ∃ b ∈ op.bind, b.1 ∈ writeSlots tbl op ∧
-      (c = b.2 ∨ ∃ a, (a, c) ∈ s.refs b.2 ∧ ((writeAttrs tbl op b.1).isEmpty = true ∨ a ∈ writeAttrs tbl op b.1)) := by
+      (c = b.2 ∨ ∃ a, (a, c) ∈ s.refs b.2 ∧ (a = "*" ∨ (writeAttrs tbl op b.1).isEmpty = true ∨ a ∈ writeAttrs tbl op b.1)) := by
   simp only [writeCells, List.mem_flatMap, List.mem_filter, List.contains_eq_mem, decide_eq_true_eq, List.mem_cons, List.mem_map,
-    Bool.or_eq_true]
+    Bool.or_eq_true, beq_iff_eq, or_assoc]
   constructor
   · rintro ⟨b, ⟨hb, hs⟩, hc⟩
     refine ⟨b, hb, hs, ?_⟩
